@@ -1,6 +1,7 @@
 import I2N.Lemmas.Trav
 import I2N.Lemmas.TravResults
 import I2N.Lemmas.TravBudget
+import I2N.Lemmas.TravPatient
 import I2N.Model.TravMon
 /-!
 # C03 — No test is executed more often than its retry budget per reuse scope
@@ -309,10 +310,10 @@ missing; neither earlier results nor executions in flight are looked at — or (
 `max_tries ≠ 1` and fewer counted results in the reuse scope (placeholders included) than `max_tries`.
 The run-level bound built on this rule is `budget_stateful` below (classes without object roots; the bound is
 `max(max_tries, 1, largest is_occupied threshold)`, which is `max(max_tries, 1)` when `max_concurrent_tries` is unset or
-within `max(max_tries, 1)` and no re-entrancy bump happened).  STILL NOT proved: object roots with `max_tries ≤ 1`
-(true by the same argument with the creations in flight counted as results-to-be: with `max_tries ≤ 1` the rerun rule
-never fires, and on the scan path creations and results together number at most the marks in scope); for object roots
-with `max_tries ≥ 2` the bound is false (`root_creation_hidden`), as it is for `max_concurrent_tries > max_tries`
+within `max(max_tries, 1)` and no re-entrancy bump happened) and `budget_stateful_roots` (classes with object roots and
+`max_tries ≤ 1`: creations in flight counted as results-to-be; with `max_tries ≤ 1` the rerun rule never fires, and on
+the scan path creations and results together number at most the marks in scope).  For object roots with
+`max_tries ≥ 2` the bound is false (`root_creation_hidden`), as it is for `max_concurrent_tries > max_tries`
 (witness below). -/
 theorem budget_stateful_partial (g : Graph) (s : State) (n w : Nat) (s1 : State) (evs : List Event)
     (hsets : (g.node n).sets.isEmpty = false) (h : runDecision g s n w = .ok (true, s1, evs)) :
@@ -429,7 +430,7 @@ theorem scan_phase_results {g : Graph} (hwf : graphWF g = true) {ncls : Nat} {st
       (s.nd j).started = some u ∧ g.idIn u j = true) ∨
     (∃ u, u < g.workers.length ∧ g.idIn u j = true ∧ FinIn g s c sh u) := by
   have b := hr.binv hwf (statefulClass_spec hc)
-  rcases b.p1 j hj hjc hne with ⟨u, tag, _, ⟨ph, dir, uid, wait, hpc⟩, hres⟩ | h
+  rcases b.p1 j hj hjc hne with ⟨u, tag, _, ⟨ph, dir, uid, wait, hpc, _⟩, hres⟩ | h
   · obtain ⟨_, _, h3, h4⟩ := b.infl u trivial j ph dir uid tag wait hpc hjc
     exact Or.inl ⟨u, tag, ph, dir, uid, wait, hpc, hres, h4, h3⟩
   · exact Or.inr h
@@ -503,6 +504,141 @@ theorem root_creation_hidden :
     (inTestAt sRR 0 0 .pre = true ∧ inTestAt sRR 1 1 .pre = true ∧ classLen gRR sRR 0 = 0 ∧ classLimit gRR sRR 0 = 2) :=
   ⟨.step 1 _ 20 (.step 0 _ 20 (.init []) (by decide) (by decide)) (by decide) (by decide),
    by decide +kernel, by decide +kernel, by decide +kernel⟩
+
+/-!
+### Object roots with `max_tries ≤ 1`
+
+An object root is created in two phases: the creation pre-step (`pc = .test n .pre …`) runs on a copy of the root's
+results kept by the worker — its placeholder is invisible to everybody else — and its success starts the test proper
+without a decision.  A creation in flight is therefore a result-to-be, and the statement that is TRUE counts it:
+`creationsInFlight g s c sh v` lists the workers inside the creation pre-step of a copy of class `c` that observer `v`
+sees.  A failed pre-step files its result at the root (under the name of the pre-step, /repo fix 7ba7970) and finishes
+the root; a pre-step that was never reported files its UNKNOWN placeholder there — in all cases exactly what the creation
+in flight stood for.
+
+`statefulClassRoots g c M sh` (decidable, static) is `statefulClass` without "no copy is an object root", with
+* `max_tries` unset or `≤ 1` — otherwise FALSE (`root_creation_hidden`, `max_tries = 2`: the rerun rule does not see
+  the creations in flight);
+* an observer whose name filter matches the name of the creation pre-step of a root (`preNameOf`) sees the root — the
+  results a failed pre-step files carry that name.  (For the `global` shape the clause is void; for `own`/`swarm` it
+  contains `String.splitOn`, which `#eval` evaluates but the kernel does not reduce.)
+-/
+
+/-- **budget_stateful_roots** (C03 for setup classes with object roots, `max_tries ≤ 1`).  In every reachable state —
+any graph, any number of workers, any interleaving, any outcomes incl. never reported, lazy expansion included — for a
+class `c` satisfying the static, decidable `statefulClassRoots g c M sh`: the results of the class any observer `v` counts
+in its reuse scope (placeholders of tests proper in flight included) TOGETHER WITH the creations in flight on copies it
+sees number at most `max(1, largest is_occupied threshold of the class so far)`; and at most 1 when
+`max_concurrent_tries` is unset or `≤ 1` on every copy and no re-entrancy bump has happened.  Every creation in flight
+ends as exactly one result or none more (`creation_success_starts_unconditionally`, failed pre-step accounting), so the
+root is created-and-run at most that often per reuse scope along any run. -/
+theorem budget_stateful_roots {g : Graph} (hwf : graphWF g = true) {ncls : Nat} {store : List (String × List (String × String))}
+    {s : State} (hr : ReachableR g ncls store s) (c : Nat) (M : Option Int) (sh : Shape)
+    (hc : statefulClassRoots g c M sh = true) (n : Nat) (hn : n < g.nodes.length) (hnc : (g.node n).cls = c)
+    (v : Nat) (hv : v < g.workers.length) :
+    (((sharedFilteredResults g s n (some v)).length + (creationsInFlight g s c sh v).length : Nat) : Int) ≤
+      max 1 (classLimit g s c) ∧
+    (mctWithin g c M = true → NoBump s →
+      (sharedFilteredResults g s n (some v)).length + (creationsInFlight g s c sh v).length ≤ 1) := by
+  have h := hr.budgetStatefulRoots hwf hc n hn hnc v hv
+  refine ⟨h, fun hm hb => ?_⟩
+  obtain ⟨hC, hM⟩ := statefulClassRoots_spec hc
+  have := classLimit_le_of_mctWithin hC hm s hb
+  omega
+
+/-- the general form behind both run-level theorems: under the (undecided) hypotheses `BClass` — copies are object
+roots only if `max_tries ≤ 1` — results in scope plus creations in flight in scope stay within
+`max(max_tries, 1, largest threshold)` -/
+theorem budget_stateful_general {g : Graph} (hwf : graphWF g = true) {ncls : Nat} {store : List (String × List (String × String))}
+    {s : State} (hr : ReachableR g ncls store s) (c : Nat) (M : Option Int) (sh : Shape)
+    (hc : BClass g c M sh) (n : Nat) (hn : n < g.nodes.length) (hnc : (g.node n).cls = c)
+    (v : Nat) (hv : v < g.workers.length) :
+    (((sharedFilteredResults g s n (some v)).length + (creationsInFlight g s c sh v).length : Nat) : Int) ≤
+      max (max (M.getD 1) 1) (classLimit g s c) :=
+  hr.budgetB hwf hc n hn hnc v hv
+
+/-! Non-vacuity, and the general bound is attained with the creations counted (and only with them): `gR` (two object
+roots, `max_tries = 1`, `max_concurrent_tries = 2`, the graph of the known finding) — in `sR2` both workers are inside
+the creation, the class has no result: 0 + 2 = threshold 2.  `gQ`: `max_concurrent_tries` unset — net2 finds the class
+occupied while net1 creates: 0 + 1 ≤ 1, the sharp bound. -/
+
+example : graphWF gR = true ∧ statefulClassRoots gR 0 (some 1) .global = true ∧ mctWithin gR 0 (some 1) = false := by
+  decide +kernel
+example : ReachableR gR 2 [] sR2 :=
+  .step 1 _ 20 (.step 0 _ 20 (.init []) (by decide) (by decide)) (by decide) (by decide)
+set_option maxRecDepth 100000 in
+example : (sharedFilteredResults gR sR2 0 (some 0)).length = 0 ∧ creationsInFlight gR sR2 0 .global 0 = [0, 1] ∧
+    classLimit gR sR2 0 = 2 := by decide +kernel
+/-- with retries configured the hypothesis fails, and so does the bound (`root_creation_hidden`) -/
+example : statefulClassRoots gRR 0 (some 2) .global = false := by decide +kernel
+
+def gQ : Graph :=
+  { workers := [{ id := "net1", swarm := "localhost" }, { id := "net2", swarm := "localhost" }],
+    nodes := [
+      { cls := 0, owner := some 0, name := "all.root.vms.vm1.nets.localhost.net1", pfx := "1a1", objectRoot := true,
+        sets := [("vm1", "root")], objs := ["vm1"], setup := [(2, ["vm1"])] },
+      { cls := 0, owner := some 1, name := "all.root.vms.vm1.nets.localhost.net2", pfx := "1b1", objectRoot := true,
+        sets := [("vm1", "root")], objs := ["vm1"], setup := [(2, ["vm1"])] },
+      { cls := 1, owner := none, name := "all.internal.stateless.noop", pfx := "1", flat := true, sharedRoot := true,
+        cleanup := [(0, ["vm1"]), (1, ["vm1"])] }],
+    root := 2 }
+
+def sQ1 : State := (resume gQ (initState gQ 2 []) 0 { status := none } 20).1
+def sQ2 : State := (resume gQ sQ1 1 { status := none } 20).1
+
+example : graphWF gQ = true ∧ statefulClassRoots gQ 0 none .global = true ∧ mctWithin gQ 0 none = true := by decide +kernel
+example : ReachableR gQ 2 [] sQ2 :=
+  .step 1 _ 20 (.step 0 _ 20 (.init []) (by decide) (by decide)) (by decide) (by decide)
+set_option maxRecDepth 100000 in
+example : inTestAt sQ2 0 0 .pre = true ∧ inTestAt sQ2 1 1 .pre = false ∧ isOccupied gQ sQ1 1 1 = true ∧
+    (sharedFilteredResults gQ sQ2 1 (some 1)).length = 0 ∧ creationsInFlight gQ sQ2 0 .global 1 = [0] ∧
+    sQ2.nodes.all (fun d => d.bump == 0) = true := by decide +kernel
+
+/-!
+### Where the threshold grows
+
+`classLimit` in the general bounds is the largest `is_occupied` threshold a copy of the class has had.  It depends on the
+state only through the `bump` counters, and those are written in one place: the back-off branch of the loop (`iter`:
+the worker stands again before an occupied node it bounced off before and `occWait > timeout * max_tries`).  Whether a
+step takes that branch is decided by the stepping worker's back-off record at the beginning of the step
+(`overWaited g s w`, `Lemmas/TravPatient.lean`).
+-/
+
+/-- **classLimit_grows_only_by_backoff.**  A step of a worker that has not waited longer than `timeout * max_tries` at
+an occupied node leaves every bump counter, hence the largest threshold of every class, as it was; in particular it
+preserves `NoBump`.  (Any state, any worker, any outcome, any fuel; no hypothesis on the graph.) -/
+theorem classLimit_grows_only_by_backoff (g : Graph) (s : State) (w : Nat) (out : Outcome) (fuel : Nat)
+    (h : ¬ overWaited g s w) :
+    (∀ i, ((resume g s w out fuel).1.nd i).bump = (s.nd i).bump) ∧
+    (∀ c, classLimit g (resume g s w out fuel).1 c = classLimit g s c) ∧
+    (NoBump s → NoBump (resume g s w out fuel).1) :=
+  ⟨resume_bump_eq g s w out fuel h, resume_classLimit_eq g s w out fuel h, resume_noBump g s w out fuel h⟩
+
+/-- **budget_patient** — the sharp bounds for all runs in which no worker ever waited longer than `timeout * max_tries`
+at occupied nodes (`ReachableP`: every step is taken by a worker with `¬ overWaited`): with `max_concurrent_tries`
+unset or within `max(max_tries, 1)` on every copy, a stateful class without object roots has at most
+`max(max_tries, 1)` counted results per reuse scope, and a class with object roots (`max_tries ≤ 1`) at most one counted
+result or creation in flight. -/
+theorem budget_patient {g : Graph} (hwf : graphWF g = true) {ncls : Nat} {store : List (String × List (String × String))}
+    {s : State} (hr : ReachableP g ncls store s) (c : Nat) (M : Option Int) (sh : Shape) (hm : mctWithin g c M = true)
+    (n : Nat) (hn : n < g.nodes.length) (hnc : (g.node n).cls = c) (v : Nat) (hv : v < g.workers.length) :
+    NoBump s ∧
+    (statefulClass g c M sh = true → ((sharedFilteredResults g s n (some v)).length : Int) ≤ max (M.getD 1) 1) ∧
+    (statefulClassRoots g c M sh = true →
+      (sharedFilteredResults g s n (some v)).length + (creationsInFlight g s c sh v).length ≤ 1) :=
+  ⟨hr.noBump,
+   fun hc => (budget_stateful hwf hr.reachableR c M sh hc n hn hnc v hv).2 hm hr.noBump,
+   fun hc => (budget_stateful_roots hwf hr.reachableR c M sh hc n hn hnc v hv).2 hm hr.noBump⟩
+
+/-- non-vacuity: the run to `sQ2` (net1 creates the root, net2 bounces off) is of this kind -/
+example : ReachableP gQ 2 [] sQ2 :=
+  .step 1 _ 20 (.step 0 _ 20 (.init []) (by decide) (by decide) (not_overWaited_of_nil (by decide)))
+    (by decide) (by decide) (not_overWaited_of_nil (by decide +kernel))
+/-- … and so is the run to `sT3` (two executions of a setup class with `max_tries = 2`, the third worker bounces) -/
+example : ReachableP gT 2 [] sT3 :=
+  .step 2 _ 20 (.step 1 _ 20 (.step 0 _ 20 (.init []) (by decide) (by decide) (not_overWaited_of_nil (by decide)))
+    (by decide) (by decide) (not_overWaited_of_nil (by decide +kernel))) (by decide) (by decide)
+    (not_overWaited_of_nil (by decide +kernel))
 
 /-! Why a copy must be cared for by one worker only (`worker.id in params["name"]` is a substring test: `"net1"` occurs
 in the name of `net11`'s copy).  `net1` picks `net11`'s copy as if it were its own and starts the setup test on it; `net11`
